@@ -522,6 +522,9 @@ func (env *SpecEnv) call(e *SExpr) Val {
 	case "allocated":
 		need(1)
 		v := env.eval(args[0])
+		if v.K == KSlice {
+			return scalar(Or(Eq(v.F[0].S, IntLit(0)), Select(env.cur.H(allocAKey, allocSort), v.F[0].S)), bt)
+		}
 		return scalar(Select(env.cur.H(allocKey, allocSort), v.S), bt)
 	case "arr":
 		need(1)
